@@ -8,24 +8,33 @@ from props.parts import _tracksv1_gen as G
 NS = "EngineModel.Properties.C06V1."
 LEAN_MODULES = ["Properties.C06V1"]
 THEOREMS = [NS + t for t in [
-    "v1_C06_get_set", "v1_C06_reject", "v1_C06_frame", "v1_C06_frame_derived", "v1_C06_getter_snapshot",
-    "v1_C06_inv_write", "v1_C06_inv_set", "v1_C06_other_track", "v1_C06_history", "v1_C06_history_other_tracks"]]
-import os as _os
-if not _os.path.exists(_os.path.join(LEAN, "Properties", "C06V1.lean")):
-    # the 1.x theorem file is not in the tree yet: claim the tie only, say so
-    THEOREMS, LEAN_MODULES = [], []
+    "v1_C06_setter_spec", "v1_C06_get_set", "v1_C06_reject", "v1_C06_never_ub", "v1_C06_frame", "v1_C06_frame_derived",
+    "v1_C06_getter_snapshot", "v1_C06_slot_getters_safe", "v1_C06_inv_write", "v1_C06_inv_set", "v1_C06_inv_db",
+    "v1_C06_other_track", "v1_C06_db_get_set", "v1_C06_history", "v1_C06_history_getters",
+    "v1_C06_history_other_tracks", "v1_C06_absent_track", "v1_C06_remove_track", "v1_C06_spec_get_put",
+    "v1_C06_spec_frame"]]
 ASSUMPTIONS = [
     "1.x: setters are modelled on the rows of one track (every statement they issue has WHERE id = ?); the only "
     "cross-track coupling is UNIQUE(path) from 1.11.1 on, which is part of the database-level step",
     "1.x: the multi-statement setters without a transaction scope (set_bpm, set_last_played_at, set_relative_path) are "
     "modelled by their net effect; failure between their statements is C14's subject, not C06's",
+    "1.x: NaN is outside the quantifier (Spec.finiteArg; matters for set_bpm only: SQLite stores a NaN REAL as NULL); "
+    "std::ceil enters only through the explicit hypothesis CeilInRange of v1_C06_never_ub",
+    "1.x: only the direction `setter returned normally => Spec accepts and the lens holds` is proved; the setters are "
+    "stricter than the snapshot path (offset -1.0 slots, tracks without PerformanceData row) and throw there",
 ]
 MANIFEST_TEXT = (
-    "1.x: lens theorems for all 26 setters (incl. slot setters at any index) over the same Lean model: get-after-set "
-    "= Spec.normField, frame for every ordered pair of independent fields, getter = snapshot field on every reachable "
-    "state, other tracks untouched, lifted to arbitrary setter histories over any number of tracks by induction; tied by "
-    "generated setter histories over 3 tracks with all getters and snapshots observed after every step, and the lens "
-    "laws evaluated on the real library's own answers.")
+    "1.x: 20 theorems (Properties/C06V1.lean) over the statement-level Lean model of the 26 getters / setters of "
+    "engine_track_impl.cpp: every setter that returns normally refines the Spec lens (v1_C06_setter_spec: snapshot after = "
+    "putField of the normalised value, other 24 fields and 7 slots unchanged), get-after-set = Spec.normField, "
+    "Spec-rejected values throw, no setter has undefined behaviour, frame for every ordered pair of independent fields and "
+    "for filename/extension, getter = snapshot field on every state in the invariant Inv, Inv established by "
+    "create_track/update and kept by every setter, other tracks untouched, removed tracks (every setter throws), lifted "
+    "to arbitrary finite setter histories over any number of tracks by induction (v1_C06_history: snapshot after = "
+    "Spec.replay of the successful calls); tied by generated histories over 3 tracks (missing PerformanceData row, "
+    "default grid != adjusted grid, a track removed mid-history) with is_valid, all getters and snapshots observed "
+    "after every step, the model driver re-checking Inv on every written row, and the lens laws evaluated on the real "
+    "library's own answers.")
 TRUSTED_EXTRA = []
 
 GETTERS = ["album", "artist", "average_loudness", "beatgrid", "bitrate", "bpm", "comment", "composer", "duration",
@@ -84,6 +93,7 @@ SETTERS = GETTERS + ["hot_cue_at", "loop_at"]
 def obs_lines(extra_slots):
     out = []
     for t in TRACKS:
+        out.append(("get %s valid" % t, (t, "valid")))
         for g in GETTERS + DERIVED:
             out.append(("get %s %s" % (t, g), (t, g)))
         for (kind, i) in extra_slots:
@@ -105,11 +115,30 @@ def build(rng, tier, schemas):
                 lines.append("mktrack %s %s" % (t, G.snap_txt(x))); meta.append(("mk", t))
             if rng.random() < 0.15:
                 lines.append("v1.rmperf b"); meta.append(("rmperf", "b"))
+            for t in TRACKS:
+                # a grid adjusted in Engine: default grid != adjusted grid (no library call produces this state)
+                if rng.random() < 0.4:
+                    lines.append("v1.skewgrid %s" % t); meta.append(("skew", t))
             slots = [("hot_cue_at", 0), ("hot_cue_at", 7), ("loop_at", 0), ("loop_at", 7)]
             for (l, m) in obs_lines(slots):
                 lines.append(l); meta.append(("obs", 0) + m)
+            rm_at = rng.randrange(5, steps) if rng.random() < 0.35 else None    # one track is removed mid-history
+            removed = None
             for k in range(1, steps + 1):
                 t = rng.choice(TRACKS)
+                if k == rm_at:
+                    removed = t
+                    lines.append("rmtrack %s" % t); meta.append(("rm", k, t))
+                    for (l, m) in obs_lines(slots):
+                        lines.append(l); meta.append(("obs", k) + m)
+                    continue
+                if removed is not None and k == rm_at + 1:
+                    # update() through the stale handle: must throw, must write nothing
+                    x = G.g_snapshot(rng, 7, "quick", valid=rng.random() < 0.8)
+                    lines.append("update %s %s" % (removed, G.snap_txt(x))); meta.append(("rm", k, removed))
+                    for (l, m) in obs_lines(slots):
+                        lines.append(l); meta.append(("obs", k) + m)
+                    continue
                 f = rng.choice(SETTERS + ["hot_cue_at", "loop_at", "hot_cues", "loops", "main_cue", "sample_rate",
                                           "sample_count", "key", "waveform"])
                 v = value_txt(rng, f, tier)
@@ -126,7 +155,7 @@ def build(rng, tier, schemas):
                     sl.append((rng.choice(["hot_cue_at", "loop_at"]), rng.choice([8, -1, 100])))
                 for (l, m) in obs_lines(sl):
                     lines.append(l); meta.append(("obs", k) + m)
-                if rng.random() < 0.2:
+                if rng.random() < 0.2 and t != removed:
                     lines.append("v1.rows %s" % t); meta.append(("rows",))
             scripts.append((sch, lines, meta))
     return scripts
@@ -169,6 +198,15 @@ def split_snap(txt):
     return d
 
 
+def snap_as_input(txt):
+    """snapshot text as printed -> as parsed (file_bytes is printed unsigned but read as a signed decimal)"""
+    t = txt.split()
+    i = 3 + 1 + 2 * int(t[3]) + 5
+    if t[i] != "none" and int(t[i]) >= 2 ** 63:
+        t[i] = str(int(t[i]) - 2 ** 64)
+    return " ".join(t)
+
+
 def overlapping(f, g):
     """getter g legitimately changes when setter f is called (same field, a view of it, or derived)"""
     fb = f.split()[0]
@@ -192,7 +230,7 @@ def tie(ctx):
     rng = random.Random(ctx.seed * 6151 + 606)
     schemas = G.QUICK_SCHEMAS if ctx.tier == "quick" else G.SCHEMAS
     scripts = build(rng, ctx.tier, schemas)
-    hres = runner.run_harness([s[1] for s in scripts], watchdog=30)
+    hres, retried = G.run_harness_robust(runner, [s[1] for s in scripts], watchdog=30)
     mres = runner.run_model([s[1] for s in scripts])
     spec_lines = []
     for (sch, lines, meta) in scripts:
@@ -205,9 +243,10 @@ def tie(ctx):
     divergences, violations = [], []
     hist = {"steps": 0, "set_ok": 0, "set_throw": {}, "spec_reject": 0, "setter_stricter_than_spec": {},
             "by_field": {}, "slot_indices": {}, "getter_eq_snapshot_checks": 0, "frame_checks": 0,
-            "other_track_checks": 0, "nan_values": 0, "perf_row_missing_scripts": 0}
+            "other_track_checks": 0, "nan_values": 0, "perf_row_missing_scripts": 0, "watchdog_retries": retried}
     distinct = set()
     evals = 0
+    put_lines, put_meta = [], []
     for (sch, lines, meta), (hout, hrep), mout in zip(scripts, hres, mres):
         for i, l in enumerate(lines):
             evals += 1
@@ -216,9 +255,11 @@ def tie(ctx):
                                     "model": mout[i][:400]})
         if any(m and m[0] == "rmperf" for m in meta):
             hist["perf_row_missing_scripts"] += 1
+        hist["skewed_grid_tracks"] = hist.get("skewed_grid_tracks", 0) + sum(1 for m in meta if m and m[0] == "skew")
         # observations per step on the real library's answers
         obs = {}
         sets = {}
+        rms = {}
         for i, m in enumerate(meta):
             if not m:
                 continue
@@ -226,6 +267,8 @@ def tie(ctx):
                 obs.setdefault(m[1], {})[(m[2], m[3])] = hout[i]
             elif m[0] == "set":
                 sets[m[1]] = (i, m[2], m[3], m[4], hout[i])
+            elif m[0] == "rm":
+                rms[m[1]] = (i, m[2], hout[i])
 
         def viol(k, what, extra=()):
             i = sets[k][0]
@@ -234,10 +277,42 @@ def tie(ctx):
                                "header": {"kind": "history", "part": "C06_v1", "what": what},
                                "body": body + ["note: " + e for e in extra]})
 
+        removed_at = {}
+        for k, (_, t, _) in sorted(rms.items()):
+            removed_at.setdefault(t, k)
+        for k, (i, t, res) in rms.items():
+            # remove_track: the track is gone, every other track is observed exactly as before
+            hist["removals"] = hist.get("removals", 0) + 1
+            before, after = obs.get(k - 1, {}), obs.get(k, {})
+            body = [l for l, m in zip(lines[:i + 1], meta[:i + 1]) if not (m and m[0] in ("obs", "rows"))]
+            bad = None
+            upd = lines[i].startswith("update ")
+            if upd and not res.startswith("throw"):
+                bad = "update() through the handle of a removed track did not throw (%s)" % res[:40]
+            elif not upd and res != "ok":
+                bad = "remove_track failed (%s)" % res
+            elif after.get((t, "valid")) != "ok 0" or not after.get((t, "snap"), "").startswith("throw"):
+                bad = "a removed track is still valid / still has a snapshot"
+            else:
+                for (tt, g), val in after.items():
+                    if tt != t and (tt, g) in before and before[(tt, g)] != val:
+                        bad = "%s of one track changed %s of another track" % ("update" if upd else "remove_track", g)
+                        break
+            if bad:
+                violations.append({"tag": "oracle", "signature": None,
+                                   "header": {"kind": "history", "part": "C06_v1", "what": bad + " on " + sch},
+                                   "body": body})
         for k in sorted(sets):
             i, t, f, v, res = sets[k]
             spec = next(sp)
             hist["steps"] += 1
+            if t in removed_at and removed_at[t] < k:
+                # handle of a removed track: the call must throw (and, checked below like any other call,
+                # leave every other track alone)
+                hist["calls_on_removed_track"] = hist.get("calls_on_removed_track", 0) + 1
+                if res == "ok":
+                    viol(k, "setter %s on a removed track returned normally on %s" % (f, sch))
+                    continue
             hist["by_field"][f] = hist["by_field"].get(f, 0) + 1
             if res.startswith("skipped") or res.startswith("missing"):
                 continue
@@ -264,6 +339,11 @@ def tie(ctx):
                              ["get %s %s" % (t, fkey), "want: " + spec[:400], "got:  " + got[:400]])
                         continue
                     distinct.add((f, spec))
+                # the whole lens on the implementation's own snapshots: snapshot after = putField (snapshot before)
+                sb, sa = before.get((t, "snap"), ""), after.get((t, "snap"), "")
+                if spec.startswith("ok ") and not nan and sb.startswith("ok ") and sa.startswith("ok "):
+                    put_lines.append("v1spec.putfield %s %s %s" % (f, v, snap_as_input(sb[3:])))
+                    put_meta.append((sa, sch, f, t, lines, meta, i))
             else:
                 c = res.split()[1] if len(res.split()) > 1 else res
                 hist["set_throw"][c] = hist["set_throw"].get(c, 0) + 1
@@ -311,17 +391,28 @@ def tie(ctx):
                         viol(kk, "getter %s and snapshot().%s disagree on %s" % (g, g, sch),
                              ["get %s %s" % (t, g), "snap %s" % t, "getter:   " + got[:300], "snapshot: " + want[:300]])
                         break
+    # second Spec pass: the lens applied to the snapshot the real library returned before the call
+    hist["snapshot_lens_checks"] = len(put_lines)
+    pout = [o for outs in runner.run_model(runner.shard(put_lines, NCPU)) for o in outs] if put_lines else []
+    for want, (sa, sch, f, t, lines, meta, i) in zip(pout, put_meta):
+        if want != sa:
+            body = [l for l, m in zip(lines[:i + 1], meta[:i + 1]) if not (m and m[0] in ("obs", "rows"))]
+            violations.append({"tag": "oracle", "signature": None,
+                               "header": {"kind": "history", "part": "C06_v1",
+                                          "what": "snapshot() after setter %s is not the snapshot before with that field "
+                                                  "replaced by the normalised value on %s" % (f, sch)},
+                               "body": body + ["note: snap " + t, "note: want: " + want[:600], "note: got:  " + sa[:600]]})
     crashes = [r for (_, reps) in hres for r in reps]
     return {
         "ok": not divergences and not violations,
         "evaluations": evals,
         "distinct_nontrivial": len(distinct),
         "rule": "1.x: setter histories over 3 tracks (one fully analysed, one minimal, one random; in some scripts the "
-                "PerformanceData row of one track is deleted first), every setter incl. slot setters at indices 0..7 and "
+                "PerformanceData row of one track is deleted first, and the default beat grid of some tracks is made different from the adjusted one, as Engine does), every setter incl. slot setters at indices 0..7 and "
                 "out of range, values from the C01 classes; after every step all 26 getters, slot getters, filename / "
                 "extension and snapshot() of all three tracks; model vs implementation line by line; lens laws "
-                "(get-after-set = Spec.normField, frame, other tracks, getter = snapshot field) on the implementation's "
-                "answers; non-trivial = distinct (setter, normalised value) pairs confirmed by the getter",
+                "(get-after-set = Spec.normField, frame, other tracks, getter = snapshot field, snapshot after = "
+                "Spec.putField of the snapshot before) on the implementation's answers; non-trivial = distinct (setter, normalised value) pairs confirmed by the getter",
         "samples": [scripts[0][1][2][:300]] + [l[:200] for l in scripts[0][1] if l.startswith("set ")][:3],
         "histograms": hist,
         "divergences": divergences[:20],
